@@ -542,6 +542,15 @@ impl<'a> Frame<'a> {
     }
 }
 
+// Verification hook (compiled only with `--cfg bma400_verif`)
+#[cfg(bma400_verif)]
+impl<'a> Frame<'a> {
+    /// The sub-slice of the FIFO buffer this frame occupies
+    pub fn verif_slice(&self) -> &'a [u8] {
+        self.slice
+    }
+}
+
 /// The type of the FIFO Frame
 pub enum FrameType {
     /// Acceleration Data
